@@ -47,7 +47,32 @@ def main():
         mod = __import__(a.pid.lower())
     if a.replay:
         sys.exit(mod.replay(a.pid, a.replay))
+    watchdog(a.pid, a.tier)
     sys.exit(mod.run(a.pid, a.tier))
+
+
+def watchdog(pid, tier):
+    """A check that does not finish shows nothing: after a generous wall-clock budget (the checks take minutes on a tree
+    where the property holds) it is reported as such, with the name of the check in the replay, instead of hanging."""
+    import threading, json, time
+    budget = int(os.environ.get("VERIF_WATCHDOG", "1800" if tier == "quick" else "21600"))
+
+    def fire():
+        verif = os.path.dirname(os.path.dirname(os.path.abspath(__file__)))
+        path = os.path.join(verif, "replays", "%s-watchdog.json" % pid)
+        try:
+            with open(path, "w") as f:
+                json.dump({"property": pid, "kind": "broken-obligation", "signature": "check-did-not-finish",
+                           "what": "the %s check of %s did not finish within %d s: the implementation under test does not return on some generated input "
+                                   "(or the check's own budget is too small); the property is not shown to hold" % (tier, pid, budget),
+                           "theorem": "./check %s --tier %s (whole check)" % (pid, tier)}, f, indent=1)
+        except Exception:  # noqa
+            pass
+        print("VIOLATION property=%s replay=%s no-failing-input-found" % (pid, path), flush=True)
+        os._exit(1)
+    t = threading.Timer(budget, fire)
+    t.daemon = True
+    t.start()
 
 
 main()
